@@ -1,9 +1,10 @@
 (* C05 -- Decompiled program rebuilds the same value as the real pickle VM (layer A: the symbolic
    result DENOTES the VM's value; see DESIGN.md 5/C05 for layer B, which is differential). *)
 From Coq Require Import List String ZArith Bool Arith.
-From Verif Require Import Base Ops Interp RefVM SimRel SimProofs.
+From Verif Require Import Base Ops Interp RefVM SimRel SimProofs PyEval PyEvalProofs.
 Import ListNotations.
 Local Open Scope nat_scope.
+Local Open Scope list_scope.
 
 (* One opcode: the relation R ("every symbolic expression on the stack / in the memo / in a mutable
    node / in an emitted statement denotes the corresponding VM value, node i is heap object i, the
@@ -48,5 +49,78 @@ Example C05_nonvacuous_shared_dict :
   end.
 Proof. vm_compute. auto. Qed.
 
+(* ---------------------------------------------------------------------------------------------
+   Layer B: EVALUATING the decompiled program (PyEval.v: a mini-Python evaluator for the statement /
+   expression subset fickling emits, against the same inert stand-ins as the reference VM; a
+   mutable node is a list / set / dict DISPLAY of its final contents, and every evaluation of a
+   display allocates a fresh object) rebuilds the VM's value.
+
+   Plain data -- constants, MARK / POP / POP_MARK / DUP, tuples, EMPTY_LIST / DICT / SET, APPEND(S),
+   SETITEM(S), ADDITEMS, LIST / DICT / FROZENSET, memo PUT / GET / MEMOIZE, PROTO / FRAME, STOP --
+   programs of ANY length, nesting and sharing that both machines accept, whose VM result is
+   acyclic (same_shape n h h x x = true says exactly: x unfolds to a finite tree of depth < n):
+   evaluating `result = e` with fuel n succeeds, neither side logs an event, and the result
+   unfolds to the SAME tree as the VM's value.  Sharing between two displays of one node is lost in
+   the evaluated value ([d, d] is rebuilt as two equal dicts); for a final value that nobody
+   mutates afterwards tree equality is the right notion of "same value" (the property's
+   "sharing preserved wherever it affects the value"): sets and dicts are compared by their
+   insertion histories, which determine the Python set / dict. *)
+Theorem C05_plain_data_eval : forall p n f v x,
+  forallb data_op p = true -> run p = Ok f -> vrun p = Ok v -> vstopped v = Some x ->
+  same_shape n (heap v) (heap v) x x = true ->
+  exists st r, py_run n p = Ok st /\ presult st = Some r /\ plog st = [] /\ log v = [] /\
+               same_shape n (heap v) (pheap st) x r = true.
+Proof. exact plain_data_eval. Qed.
+
+(* the general evaluator lemma behind it (all expressions fickling emits): an expression that
+   denotes VM value v (layer A's relation) evaluates -- in an environment where _var<i> is bound to
+   the stand-in it names and node displays are rebuilt from the final nodes -- to a value
+   observationally equal to v *)
+Theorem C05_eval_denotes : forall P al ns h imps vars bound,
+  Forall2 (rel_node al) ns h -> forallb (obj_wf P) h = true ->
+  (forall i x, i < bound -> nth_error al i = Some x ->
+     exists y, lookup_var i vars = Some y /\ leaf_same x y = true) ->
+  (forall m n, P (VGlobal m n) = true -> leaf_same (VGlobal m n) (lookup_name n imps) = true) ->
+  forall n e v hp, fits n ns bound e = true -> rel al e v -> wfv P v = true ->
+  exists v' hp', eval ns imps vars n e hp = Ok (v', hp ++ hp') /\
+                 same_shape n h (hp ++ hp') v v' = true.
+Proof. exact eval_denotes. Qed.
+
+(* frozensets hold hashable elements, set members and dict keys are hashable: an invariant of the
+   reference VM over every opcode (needed because a Python set / dict display re-checks it) *)
+Theorem C05_vm_wellformed : forall p v,
+  vrun p = Ok v -> vm_wf any_standin v = true.
+Proof.
+  intros p v H. apply vm_wf_WF. eapply wf_run; [right; reflexivity | exact H | apply WF_init].
+Qed.
+
+(* non-vacuity: the shared dict [d, d] (acyclic, depth 3): hypotheses hold, the evaluated result is
+   a list of two equal dicts *)
+Example C05_plain_data_nonvacuous :
+  forallb data_op shared_dict = true /\
+  match run shared_dict, vrun shared_dict, py_run 4 shared_dict with
+  | Ok f, Ok v, Ok st =>
+      vstopped v = Some (VRef 0) /\ same_shape 4 (heap v) (heap v) (VRef 0) (VRef 0) = true /\
+      presult st = Some (VRef 2) /\
+      pheap st = [HDict [(VConst (CStr "a"), VConst (CInt 1))];
+                  HDict [(VConst (CStr "a"), VConst (CInt 1))]; HList [VRef 0; VRef 1]] /\
+      same_shape 4 (heap v) (pheap st) (VRef 0) (VRef 2) = true
+  | _, _, _ => False
+  end.
+Proof. vm_compute. repeat split; reflexivity. Qed.
+
+(* a cyclic value (l = []; l.append(l)) is outside: it has no finite unfolding at any depth tried,
+   and the evaluator runs out of fuel (Err EFuel) instead of answering *)
+Example C05_cyclic_is_excluded :
+  let p := [OEmptyList; OPut 0; OGet 0; OAppend; OStop] in
+  match vrun p with
+  | Ok v => vstopped v = Some (VRef 0) /\ same_shape 50 (heap v) (heap v) (VRef 0) (VRef 0) = false
+  | _ => False
+  end /\ py_run 50 [OEmptyList; OPut 0; OGet 0; OAppend; OStop] = Err EFuel.
+Proof. vm_compute. repeat split; reflexivity. Qed.
+
 Print Assumptions C05_lockstep.
 Print Assumptions C05_result_denotes_value.
+Print Assumptions C05_plain_data_eval.
+Print Assumptions C05_eval_denotes.
+Print Assumptions C05_vm_wellformed.
